@@ -93,20 +93,23 @@ Proof.
 Qed.
 
 (* ---------- CommitJournal ---------- *)
-Lemma journal_pages_spec s commit : forall pgnos pages,
-  journal_pages s commit pgnos = Some pages ->
+Lemma journal_pages_spec commit : forall pgnos s pages s2,
+  journal_pages s commit pgnos = (Some pages, s2) ->
   map fst pages = filter (fun p => negb (p =? lockpg s)) pgnos /\
   (forall p q, In (p, q) pages -> file_pg s p = Some q).
 Proof.
-  induction pgnos as [|p r IH]; intros pages H; cbn [journal_pages] in H.
+  induction pgnos as [|p r IH]; intros s pages s2 H; cbn [journal_pages] in H.
   - inversion H; subst. split; [reflexivity|]. intros p q [].
   - cbn [filter]. destruct (N.eqb_spec p (lockpg s)) as [El|Enl]; cbn [negb].
-    + apply IH. assumption.
+    + eapply IH. eassumption.
     + destruct (file_pg s p) as [q0|] eqn:Ef; [|discriminate].
-      destruct (page_chk s p commit []) as [c ok]. destruct (ok && (c =? pg_h q0)); [|discriminate].
-      destruct (journal_pages s commit r) as [l|]; [|discriminate]. inversion H; subst pages.
-      destruct (IH l eq_refl) as [A1 A2]. split; [cbn [map fst]; rewrite A1; reflexivity|].
-      intros p' q' [E|Hin]; [inversion E; subst; assumption|apply A2; assumption].
+      set (s1 := if unwritten s p then set_page_chk s p (pg_h q0) else s) in *.
+      assert (lockpg s1 = lockpg s /\ forall x, file_pg s1 x = file_pg s x) as [El1 Ef1]
+        by (unfold s1; destruct (unwritten s p); split; reflexivity).
+      destruct (page_chk s1 p commit []) as [c ok]. destruct (ok && (c =? pg_h q0)); [|discriminate].
+      destruct (journal_pages s1 commit r) as [[l|] s2'] eqn:Ej; [|discriminate]. inversion H; subst pages s2'.
+      destruct (IH s1 l s2 Ej) as [A1 A2]. split; [cbn [map fst]; rewrite A1, El1; reflexivity|].
+      intros p' q' [E|Hin]; [inversion E; subst; assumption|rewrite <- Ef1; apply A2; assumption].
 Qed.
 
 Lemma clear_after_commit_dbfile : forall n sx i, dbfile (clear_after_commit sx n i) = dbfile sx.
@@ -124,22 +127,24 @@ Lemma commit_journal_file s commit s' :
   op_commit_journal s commit = (Done, s') ->
   exists f, ltxdir s' = ltxdir s ++ [f] /\
     l_min f = txid s + 1 /\ l_max f = txid s + 1 /\ l_pre f = chk s /\ l_post f = chk s' /\ l_commit f = commit /\
-    map fst (l_pages f) = filter (fun p => negb (p =? lockpg s)) (filter (fun p => p <=? commit) (dirty s)) /\
+    map fst (l_pages f) = filter (fun p => negb (p =? lockpg s)) (journal_pgnos s commit) /\
     (forall p q, In (p, q) (l_pages f) -> file_pg s p = Some q) /\
     dbfile s' = dbfile s.
 Proof.
   intros H. unfold op_commit_journal in H. destruct (writeable s); cbn [negb] in H; [|discriminate].
   set (s0 := with_wal s [] (wal_latest s) (wal_file s)) in *.
-  destruct (journal_pages s0 commit (filter (fun p => p <=? commit) (dirty s))) as [pages|] eqn:Ej; [|discriminate].
-  set (s1 := clear_after_commit s0 (length (chk_pages s0)) commit) in *.
+  destruct (journal_pages s0 commit (journal_pgnos s commit)) as [[pages|] sj] eqn:Ej; [|discriminate].
+  pose proof (journal_pages_samenc commit _ _ _ _ Ej) as HSj.
+  set (s1 := clear_after_commit sj (length (chk_pages sj)) commit) in *.
   pose proof (checksum_same s1 commit []) as HS.
   destruct (checksum s1 commit []) as [[post|] s2]; [|discriminate]. cbn [snd] in HS.
   inversion H; subst s'. clear H.
-  destruct (journal_pages_spec s0 commit _ _ Ej) as [A1 A2].
+  destruct (journal_pages_spec commit _ s0 _ _ Ej) as [A1 A2].
   exists (new_ltx s commit post pages). cbn.
   destruct HS as [_ [_ [Ef [_ [_ [_ [_ [_ [_ [_ [_ [_ Ed]]]]]]]]]]]].
-  assert (dbfile s1 = dbfile s) as Ef1 by (unfold s1; rewrite clear_after_commit_dbfile; reflexivity).
-  assert (ltxdir s1 = ltxdir s) as Ed1 by (unfold s1; rewrite clear_after_commit_ltxdir; reflexivity).
+  destruct HSj as [_ [_ [Efj [_ [_ [_ [_ [_ [_ [_ [_ Edj]]]]]]]]]]].
+  assert (dbfile s1 = dbfile s) as Ef1 by (unfold s1; rewrite clear_after_commit_dbfile; exact Efj).
+  assert (ltxdir s1 = ltxdir s) as Ed1 by (unfold s1; rewrite clear_after_commit_ltxdir; exact Edj).
   repeat split; try reflexivity; try assumption; congruence.
 Qed.
 
@@ -158,6 +163,39 @@ Proof.
     apply Hall. apply in_map_iff. exists (k, q). auto.
 Qed.
 
+Lemma seqN_sorted : forall n a, StronglySorted N.lt (seqN a n).
+Proof.
+  induction n as [|n IH]; intros a; cbn [seqN]; constructor; [apply IH|].
+  apply Forall_forall. intros x Hx. apply seqN_in in Hx. lia.
+Qed.
+Lemma sorted_app (l1 l2 : list N) : StronglySorted N.lt l1 -> StronglySorted N.lt l2 ->
+  (forall x y, In x l1 -> In y l2 -> x < y) -> StronglySorted N.lt (l1 ++ l2).
+Proof.
+  induction l1 as [|a l1 IH]; intros H1 H2 Hlt; cbn [app]; [assumption|].
+  inversion H1 as [|? ? H1' Hall]; subst. constructor.
+  - apply IH; [assumption|assumption|]. intros x y Hx Hy. apply Hlt; [right|]; assumption.
+  - apply Forall_forall. intros x Hx. apply in_app_or in Hx. destruct Hx as [Hx|Hx].
+    + rewrite Forall_forall in Hall. apply Hall. assumption.
+    + apply Hlt; [left; reflexivity|assumption].
+Qed.
+Lemma journal_pgnos_in s commit p :
+  In p (journal_pgnos s commit) <-> (In p (dirty s) /\ p <= commit /\ p <= pageN s) \/ (pageN s < p /\ p <= commit).
+Proof.
+  unfold journal_pgnos. rewrite in_app_iff, filter_In, upfrom_seqN, seqN_in. split.
+  - intros [[Hd Hb]|Hr]; [left|right].
+    + apply andb_true_iff in Hb. destruct Hb as [B1 B2]. apply N.leb_le in B1, B2. auto.
+    + lia.
+  - intros [[Hd [H1 H2]]|[H1 H2]]; [left|right].
+    + split; [assumption|]. apply andb_true_iff. split; apply N.leb_le; assumption.
+    + lia.
+Qed.
+Lemma journal_pgnos_sorted s commit : StronglySorted N.lt (dirty s) -> StronglySorted N.lt (journal_pgnos s commit).
+Proof.
+  intros Hs. unfold journal_pgnos. apply sorted_app; [apply filter_sorted; assumption|rewrite upfrom_seqN; apply seqN_sorted|].
+  intros x y Hx Hy. apply filter_In in Hx. destruct Hx as [_ Hb]. apply andb_true_iff in Hb. destruct Hb as [_ B2].
+  apply N.leb_le in B2. rewrite upfrom_seqN in Hy. apply seqN_in in Hy. lia.
+Qed.
+
 (* C02: applying the new file's pages to the image at the previous commit gives the file SQLite now sees *)
 Theorem journal_commit_exact s0 s commit s' :
   Unchanged s0 s -> StronglySorted N.lt (dirty s) ->
@@ -174,24 +212,45 @@ Proof.
   exists f. repeat (split; [assumption|]).
   assert (txid s' = txid s + 1 /\ pageN s' = commit) as [T1 T2].
   { clear -H. unfold op_commit_journal in H. destruct (writeable s); cbn [negb] in H; [|discriminate].
-    destruct (journal_pages _ _ _); [|discriminate]. destruct (checksum _ _ _) as [[post|] s2]; [|discriminate].
+    destruct (journal_pages _ _ _) as [[pages|] sj]; [|discriminate]. destruct (checksum _ _ _) as [[post|] s2]; [|discriminate].
     inversion H; subst. cbn. auto. }
   split; [assumption|]. split; [assumption|].
-  assert (Hs : StronglySorted N.lt (map fst (l_pages f))) by (rewrite E7; apply filter_sorted, filter_sorted; assumption).
+  assert (Hs : StronglySorted N.lt (map fst (l_pages f))) by (rewrite E7; apply filter_sorted, journal_pgnos_sorted; assumption).
   split; [assumption|]. split.
-  - intros p Hp. rewrite E7 in Hp. apply filter_In in Hp. destruct Hp as [Hp Hnl]. apply filter_In in Hp. destruct Hp as [_ Hle].
+  - intros p Hp. rewrite E7 in Hp. apply filter_In in Hp. destruct Hp as [Hp Hnl]. apply journal_pgnos_in in Hp.
     split; [lia|]. apply negb_true_iff, N.eqb_neq in Hnl. assumption.
   - intros p Hp Hnl. unfold file_pg at 1. rewrite E9. fold (file_pg s p).
-    destruct (in_dec N.eq_dec p (dirty s)) as [Hd|Hnd].
+    destruct (in_dec N.eq_dec p (journal_pgnos s commit)) as [Hd|Hnd].
     + assert (In p (map fst (l_pages f))) as Hin.
-      { rewrite E7. apply filter_In. split; [apply filter_In; split; [assumption|lia]|].
-        apply negb_true_iff, N.eqb_neq. assumption. }
+      { rewrite E7. apply filter_In. split; [assumption|]. apply negb_true_iff, N.eqb_neq. assumption. }
       apply in_map_iff in Hin. destruct Hin as [[p' q] [Ep Hin]]. cbn in Ep. subst p'.
       rewrite (in_alookup_sorted p q _ Hs Hin). apply E8. assumption.
     + rewrite alookup_map_fst_none.
-      * apply HU; [lia|assumption].
-      * rewrite E7. intros Hin. apply filter_In in Hin. destruct Hin as [Hin _]. apply filter_In in Hin. tauto.
+      * apply HU; [lia|]. intros Hdirty. apply Hnd. apply journal_pgnos_in.
+        destruct (N.le_gt_cases p (pageN s)); [left; repeat split; [assumption|lia|assumption]|right; lia].
+      * rewrite E7. intros Hin. apply filter_In in Hin. tauto.
 Qed.
+
+(* every page between the old and the new size is in the new file with what the database file holds there,
+   whether the transaction wrote it or not *)
+Lemma commit_journal_covers_growth s commit s' :
+  op_commit_journal s commit = (Done, s') ->
+  exists f, ltxdir s' = ltxdir s ++ [f] /\
+    forall p, pageN s < p <= commit -> p <> lockpg s -> exists q, In (p, q) (l_pages f) /\ file_pg s p = Some q.
+Proof.
+  intros H. destruct (commit_journal_file s commit s' H) as [f [E1 [_ [_ [_ [_ [_ [E7 [E8 _]]]]]]]]].
+  exists f. split; [assumption|]. intros p Hp Hnl.
+  assert (In p (map fst (l_pages f))) as Hin.
+  { rewrite E7. apply filter_In. split; [apply journal_pgnos_in; right; lia|]. apply negb_true_iff, N.eqb_neq. assumption. }
+  apply in_map_iff in Hin. destruct Hin as [[p' q] [Ep Hin]]. cbn in Ep. subst p'.
+  exists q. split; [assumption|]. apply E8. assumption.
+Qed.
+
+(* the transaction that would have created the database, rolled back after it had written pages (SQLite has cut the
+   file back to nothing): finalising its journal publishes nothing *)
+Lemma rolled_back_creation s c : writeable s = true -> pageN s = 0 -> dbfile s = [] ->
+  step s (OCommitJournal c) = (Done, with_dirty s []).
+Proof. intros Hw Hp Hf. cbn [step]. rewrite Hw, Hp, Hf. reflexivity. Qed.
 
 (* the truncate SQLite issues after finalisation *)
 Lemma truncate_spec s n s' o : op_truncate s n = (o, s') ->
